@@ -83,8 +83,16 @@ Record env := {
   e_cls : option cls;                           (* enclosing class *)
   e_lambda_depth : nat;                         (* number of variables that were declared outside the innermost Java lambda *)
   e_in_lambda : bool;
-  e_cur : nat                                   (* name of the enclosing function whose declared return type was erased (0 = none) *)
+  e_cur : nat;                                  (* name of the enclosing function whose declared return type was erased (0 = none) *)
+  e_direct : bool                               (* the expression is directly the initializer / body of a declaration whose type was erased *)
 }.
+
+Definition undirect (G : env) : env :=
+  {| e_vars := e_vars G; e_funcs := e_funcs G; e_cls := e_cls G; e_lambda_depth := e_lambda_depth G;
+     e_in_lambda := e_in_lambda G; e_cur := e_cur G; e_direct := false |}.
+Definition direct (G : env) (b : bool) : env :=
+  {| e_vars := e_vars G; e_funcs := e_funcs G; e_cls := e_cls G; e_lambda_depth := e_lambda_depth G;
+     e_in_lambda := e_in_lambda G; e_cur := e_cur G; e_direct := b |}.
 
 Section Checker.
   Context (infer : bool)       (* true: a local variable without declared type gets the type synthesised for its
@@ -290,7 +298,7 @@ Section Checker.
         let chk_list := fix go (i : nat) (l : list node) : list tres * list err :=
                           match l with
                           | [] => ([], [])
-                          | x :: l' => let '(t, er) := chk fu G (path ++ [i]) None x in
+                          | x :: l' => let '(t, er) := chk fu (undirect G) (path ++ [i]) None x in
                                        let '(ts, ers) := go (S i) l' in (t :: ts, er ++ ers)
                           end in
         (* arguments of a call against parameters: positional, named, defaults, vararg *)
@@ -306,21 +314,21 @@ Section Checker.
                  if negb (Nat.eqb nm 0) then
                    (* named argument *)
                    match find (fun p => Nat.eqb (fp_name p) nm) ps with
-                   | None => snd (chk fu G apath None anode) ++ [mkerr (path ++ [i]) 13] ++ go (S i) ps args' true
+                   | None => snd (chk fu (undirect G) apath None anode) ++ [mkerr (path ++ [i]) 13] ++ go (S i) ps args' true
                    | Some p =>
                        let pt := if generic_unknown then None else option_map (subst false m) (fp_ty p) in
-                       let '(t, er) := chk fu G apath pt anode in
+                       let '(t, er) := chk fu (undirect G) apath pt anode in
                        er ++ (if generic_unknown then [] else chk_assign t pt (path ++ [i]) code)
                           ++ go (S i) ps args' true
                    end
                  else
                    match ps with
-                   | [] => snd (chk fu G apath None anode) ++ [mkerr (path ++ [i]) 13]
+                   | [] => snd (chk fu (undirect G) apath None anode) ++ [mkerr (path ++ [i]) 13]
                    | p :: ps' =>
                        let pt := option_map (subst false m) (fp_ty p) in
                        (* a vararg parameter of type Array<T> accepts elements of type T *)
                        let pt' := if fp_vararg p then match pt with Some (TApp _ [el]) => Some el | x => x end else pt in
-                       let '(t, er) := chk fu G apath (if generic_unknown || fp_vararg p then None else pt') anode in
+                       let '(t, er) := chk fu (undirect G) apath (if generic_unknown || fp_vararg p then None else pt') anode in
                        er ++ (if generic_unknown || (fp_vararg p && assignable t pt) then [] else chk_assign t pt' (path ++ [i]) code)
                           ++ go (S i) (if fp_vararg p then ps else ps') args' named_seen
                    end
@@ -354,12 +362,12 @@ Section Checker.
         | 17 => (* Conditional: cond, true, false *)
             match kids with
             | [c; t; f] =>
-                let '(tc, e1) := chk fu G (path ++ [0]) (Some tbool) c in
+                let '(tc, e1) := chk fu (undirect G) (path ++ [0]) (Some tbool) c in
                 (* smart cast: `x is T` narrows x in the true branch *)
                 let Gt := match c with
                           | N 22 _ _ [false] [Some ct] [N 16 x _ _ _ _] =>
                               {| e_vars := (x, Some ct, true) :: e_vars G; e_funcs := e_funcs G; e_cls := e_cls G;
-                                 e_lambda_depth := e_lambda_depth G; e_in_lambda := e_in_lambda G; e_cur := e_cur G |}
+                                 e_lambda_depth := e_lambda_depth G; e_in_lambda := e_in_lambda G; e_cur := e_cur G; e_direct := false |}
                           | _ => G
                           end in
                 let '(ttr, e2) := chk fu Gt (path ++ [1]) exp t in
@@ -401,7 +409,7 @@ Section Checker.
                      | [] => ([], [])
                      | x :: l' =>
                          let ft := match fs with f0 :: _ => f0 | [] => None end in
-                         let '(t, er) := chk fu G (path ++ [i]) ft x in
+                         let '(t, er) := chk fu (undirect G) (path ++ [i]) ft x in
                          let '(ts, ers) := go (S i) l' (tl fs) in
                          (t :: ts, er ++ chk_assign t ft (path ++ [i]) 3 ++ ers)
                      end) 0 kids fts in
@@ -412,7 +420,7 @@ Section Checker.
                     | None => (TOk ct, ers ++ (if c <? 90 then [mkerr (path) 12] else []))
                     | Some cl =>
                         (TOk ct,
-                         ers ++ (if infer && flag e 0 && is_none exp &&
+                         ers ++ (if infer && e_direct G && flag e 0 && is_none exp &&
                                     existsb (fun tv => negb (existsb (fun fd => match fd_ty fd with Some t => occurs tv t | None => false end)
                                                                      (cl_fields cl))) (cl_tparams cl)
                                  then [mkerr path 26] else []) ++
@@ -425,7 +433,7 @@ Section Checker.
         | 24 => (* FieldAccess *)
             match kids with
             | [r] =>
-                let '(tr, er) := chk fu G (path ++ [0]) None r in
+                let '(tr, er) := chk fu (undirect G) (path ++ [0]) None r in
                 match tr with
                 | TOk rt =>
                     match find_field 12 rt (name_of_node e) with
@@ -446,7 +454,7 @@ Section Checker.
                                  end in
             let off := if has_recv then 1 else 0 in
             let '(tr, er) := match recv with
-                             | Some r => chk fu G (path ++ [0]) None r
+                             | Some r => chk fu (undirect G) (path ++ [0]) None r
                              | None => (TUnk, [])
                              end in
             (* arguments are always visited (scoping), typed against the callee when it is known *)
@@ -454,7 +462,7 @@ Section Checker.
                                 (fix go (i : nat) (l : list node) : list err :=
                                    match l with
                                    | [] => []
-                                   | a :: l' => snd (chk fu G (path ++ [i] ++ (if is_callarg a then [0] else [])) None
+                                   | a :: l' => snd (chk fu (undirect G) (path ++ [i] ++ (if is_callarg a then [0] else [])) None
                                                          (if is_callarg a then match kids_of a with x :: _ => x | [] => a end else a))
                                                 ++ go (S i) l'
                                    end) off args in
@@ -520,7 +528,7 @@ Section Checker.
                                     end in
                   let rec_err := if infer && negb (Nat.eqb (e_cur G) 0) && Nat.eqb (name_of_node e) (e_cur G) && same_class
                                  then [mkerr path 25] else [] in
-                  let undet := if infer && flag e 1 && generic && is_none exp &&
+                  let undet := if infer && e_direct G && flag e 1 && generic && is_none exp &&
                                   existsb (fun tv => negb (existsb (fun p => match fp_ty p with Some t => occurs tv t | None => false end)
                                                                    (fn_params fn))) (fn_tparams fn)
                                then [mkerr path 26] else [] in
@@ -530,13 +538,13 @@ Section Checker.
               end
         | 26 => match kids with [x] => chk fu G (path ++ [0]) exp x | _ => (TUnk, []) end
         | 27 => (* FunctionReference *)
-            let '(_, er) := match kids with [r] => chk fu G (path ++ [0]) None r | _ => (TUnk, []) end in
+            let '(_, er) := match kids with [r] => chk fu (undirect G) (path ++ [0]) None r | _ => (TUnk, []) end in
             (read_ty (nth_ty e 0), er)
         | 28 => (* Assignment: [receiver] ++ [expr] *)
             let has_recv := flag e 0 in
             match has_recv, kids with
             | true, [r; x] =>
-                let '(tr, e1) := chk fu G (path ++ [0]) None r in
+                let '(tr, e1) := chk fu (undirect G) (path ++ [0]) None r in
                 match tr with
                 | TOk rt =>
                     match find_field 12 rt (name_of_node e) with
@@ -552,14 +560,14 @@ Section Checker.
                                         | Some t => if is_wild t || has_wildcards t then None else Some t
                                         | None => None
                                         end in
-                        let '(tx, e2) := chk fu G (path ++ [1]) ft' x in
+                        let '(tx, e2) := chk fu (undirect G) (path ++ [1]) ft' x in
                         (TUnk, e1 ++ e2 ++ (if fin then [mkerr (path) 14] else []) ++
                                (if only_bottom then match tx with TOk a => [(path, 7, Some a, ft)] | _ => [] end
                                 else chk_assign tx ft' path 7))
-                    | None => (TUnk, e1 ++ snd (chk fu G (path ++ [1]) None x) ++
+                    | None => (TUnk, e1 ++ snd (chk fu (undirect G) (path ++ [1]) None x) ++
                                      (match class_of_ty rt with Some _ => [mkerr (path) 11] | None => [] end))
                     end
-                | _ => (TUnk, e1 ++ snd (chk fu G (path ++ [1]) None x))
+                | _ => (TUnk, e1 ++ snd (chk fu (undirect G) (path ++ [1]) None x))
                 end
             | false, [x] =>
                 let target := match lookup_var G (name_of_node e) with
@@ -568,9 +576,9 @@ Section Checker.
                               end in
                 match target with
                 | Some (t, fin) =>
-                    let '(tx, e2) := chk fu G (path ++ [0]) t x in
+                    let '(tx, e2) := chk fu (undirect G) (path ++ [0]) t x in
                     (TUnk, e2 ++ (if fin then [mkerr (path) 14] else []) ++ (chk_assign tx t (path) 7))
-                | None => (TUnk, snd (chk fu G (path ++ [0]) None x) ++ [mkerr (path) 9])
+                | None => (TUnk, snd (chk fu (undirect G) (path ++ [0]) None x) ++ [mkerr (path) 9])
                 end
             | _, _ => (TUnk, [])
             end
@@ -579,7 +587,7 @@ Section Checker.
             let body := filter (fun c => negb (Nat.eqb (kind_of c) kParamDecl)) kids in
             let G' := {| e_vars := rev (map (fun p => (name_of_node p, nth_ty p 0, true)) ps) ++ e_vars G;
                          e_funcs := e_funcs G; e_cls := e_cls G;
-                         e_lambda_depth := length ps; e_in_lambda := true; e_cur := e_cur G |} in
+                         e_lambda_depth := length ps; e_in_lambda := true; e_cur := e_cur G; e_direct := false |} in
             let ers := match body with
                        | [b] => let '(tb, eb) := chk fu G' (path ++ [length ps]) (nth_ty e 0) b in
                                 eb ++ (match nth_ty e 0 with
@@ -598,7 +606,7 @@ Section Checker.
                    match kind_of s with
                    | 6 => (* VarDecl *)
                        let vt0 := match nth_ty s 0 with Some t => Some t | None => if infer then None else nth_ty s 1 end in
-                       let '(ti, ei) := match kids_of s with [x] => chk fu G (path ++ [i; 0]) vt0 x | _ => (TUnk, []) end in
+                       let '(ti, ei) := match kids_of s with [x] => chk fu (direct G (infer && (match nth_ty s 0 with None => true | Some _ => false end))) (path ++ [i; 0]) vt0 x | _ => (TUnk, []) end in
                        let vt := match vt0, ti with
                                  | Some t, _ => Some t
                                  | None, TOk t => if infer then Some t else nth_ty s 1
@@ -607,19 +615,19 @@ Section Checker.
                        let dup := if existsb (Nat.eqb (name_of_node s)) seen then [mkerr (path ++ [i]) 21] else [] in
                        let kwe := if existsb (Nat.eqb (name_of_node s)) kw then [mkerr (path ++ [i]) 22] else [] in
                        let G' := {| e_vars := (name_of_node s, vt, flag s 0) :: e_vars G; e_funcs := e_funcs G; e_cls := e_cls G;
-                                    e_lambda_depth := S (e_lambda_depth G); e_in_lambda := e_in_lambda G; e_cur := e_cur G |} in
+                                    e_lambda_depth := S (e_lambda_depth G); e_in_lambda := e_in_lambda G; e_cur := e_cur G; e_direct := false |} in
                        let '(r, er) := go (S i) G' (name_of_node s :: seen) l' TUnk in
                        (r, ei ++ (chk_assign ti (vt) (path ++ [i]) 1) ++ dup ++ kwe ++ er)
                    | 4 => (* nested function *)
                        let fn := mk_func s in
                        let G' := {| e_vars := e_vars G; e_funcs := fn :: e_funcs G; e_cls := e_cls G;
-                                    e_lambda_depth := e_lambda_depth G; e_in_lambda := e_in_lambda G; e_cur := e_cur G |} in
+                                    e_lambda_depth := e_lambda_depth G; e_in_lambda := e_in_lambda G; e_cur := e_cur G; e_direct := false |} in
                        let ef := chk_func fu G' (path ++ [i]) s (l_java_lambda L) in
                        let dup := if existsb (Nat.eqb (name_of_node s)) seen then [mkerr (path ++ [i]) 21] else [] in
                        let '(r, er) := go (S i) G' (name_of_node s :: seen) l' TUnk in
                        (r, ef ++ dup ++ er)
                    | _ =>
-                       let '(t, e1) := chk fu G (path ++ [i]) (match l' with [] => exp | _ => None end) s in
+                       let '(t, e1) := chk fu (direct G (e_direct G && (match l' with [] => true | _ => false end))) (path ++ [i]) (match l' with [] => exp | _ => None end) s in
                        let '(r, er) := go (S i) G seen l' t in
                        (r, e1 ++ er)
                    end
@@ -636,7 +644,7 @@ Section Checker.
         let body := filter (fun c => negb (Nat.eqb (kind_of c) kParamDecl)) (kids_of f) in
         let defaults :=
           flat_map (fun ip => match kids_of (snd ip) with
-                              | [d] => let '(td, ed) := chk fu G (path ++ [fst ip; 0]) (nth_ty (snd ip) 0) d in
+                              | [d] => let '(td, ed) := chk fu (undirect G) (path ++ [fst ip; 0]) (nth_ty (snd ip) 0) d in
                                        ed ++ (chk_assign td ((nth_ty (snd ip) 0)) (path ++ [fst ip]) 19)
                               | _ => []
                               end) (combine (seq 0 (length ps)) ps) in
@@ -645,7 +653,8 @@ Section Checker.
                      e_funcs := e_funcs G; e_cls := e_cls G;
                      e_lambda_depth := if as_lambda then length ps else length ps + length (e_vars G);
                      e_in_lambda := as_lambda || e_in_lambda G;
-                     e_cur := if infer && (match nth_ty f 0 with None => true | Some _ => false end) then name_of_node f else 0 |} in
+                     e_cur := if infer && (match nth_ty f 0 with None => true | Some _ => false end) then name_of_node f else 0;
+                     e_direct := infer && (match nth_ty f 0 with None => true | Some _ => false end) |} in
         let erased := infer && (match nth_ty f 0 with None => true | Some _ => false end) in
         let rt := if erased then None else func_ret f in
         let is_unit := match func_ret f with Some (TBuiltin u _) => Nat.eqb u (l_unit L) | _ => false end in
@@ -661,7 +670,7 @@ End Checker.
 (* ---------- whole programs ---------- *)
 
 Definition fresh_env (c : option cls) (vars : list (nat * option ty * bool)) : env :=
-  {| e_vars := vars; e_funcs := []; e_cls := c; e_lambda_depth := 0; e_in_lambda := false; e_cur := 0 |}.
+  {| e_vars := vars; e_funcs := []; e_cls := c; e_lambda_depth := 0; e_in_lambda := false; e_cur := 0; e_direct := false |}.
 
 (* inherited abstract functions of a class: walks the supertypes *)
 Fixpoint abstract_funcs (fuel : nat) (cs : list cls) (t : ty) : list (func * list (ty * ty)) :=
@@ -750,7 +759,8 @@ Definition check_program (infer strict : bool) (L : lang) (cn : list (nat * nat)
        match kind_of d with
        | 6 => (* top-level variable *)
            let '(ti, ei) := match kids_of d with
-                            | [x] => chk infer strict L w cs topfuncs topvars kw fuel (fresh_env None []) [i; 0]
+                            | [x] => chk infer strict L w cs topfuncs topvars kw fuel
+                                         (direct (fresh_env None []) (infer && (match nth_ty d 0 with None => true | Some _ => false end))) [i; 0]
                                          (match nth_ty d 0 with Some t => Some t | None => if infer then None else nth_ty d 1 end) x
                             | _ => (TUnk, []) end in
            ei ++ (chk_assign strict w ti (match nth_ty d 0 with Some t => Some t | None => if infer then None else nth_ty d 1 end) ([i]) 1)
@@ -833,3 +843,6 @@ Definition only_codes (codes : list nat) (l : list err) : list err :=
 
 Definition typing_codes : list nat := [1; 2; 3; 4; 5; 6; 7; 8; 16; 17; 18; 19; 20].
 Definition scoping_codes : list nat := [9; 10; 11; 12; 13; 14; 15; 21; 22; 23; 24].
+
+(* what the erasure check judges: the typing codes plus the two inference-mode codes *)
+Definition erasure_codes : list nat := typing_codes ++ [25; 26].
